@@ -139,8 +139,11 @@ PROPS["C15"] = dict(
 )
 
 PROPS["C01"] = dict(
-    modules=["Hpbf.Props.C01", "Hpbf.Props.C01Opt", "Hpbf.Props.C01Dse", "Hpbf.Props.ChainTotal", "Hpbf.Props.C01Loop", "Hpbf.Props.C01Rebuild", "Hpbf.Props.C01Rounds"],
-    theorems=t("Hpbf.OptProof", "optimizeOnce_shape' optimizeOnce_shapeOk' dse_total_after_round' optimizeOnce_atMost_atLeast analSound_after_round1' round1_dse_preserves' optimize_preserves_of_steps'") +
+    modules=["Hpbf.Props.C01", "Hpbf.Props.C01Opt", "Hpbf.Props.C01Dse", "Hpbf.Props.ChainTotal", "Hpbf.Props.C01Loop", "Hpbf.Props.C01Rebuild", "Hpbf.Props.C01Rounds", "Hpbf.Props.ChainO1", "Hpbf.Props.C13Opt"],
+    theorems=t("Hpbf.OptTotal", "optimize_no_panic' optimize_never_panics optimize_total' optimize_canonL'") +
+             t("Hpbf.OptProof", "optimizeOnce_rdOk' optimizeOnce_analSound' round_dse_behEq' analSound_round1' round1_dse_behEq' optimize_preserves_of_laterRounds'") +
+             t("Hpbf.Chain", "level1_all_backends ir_level1 ir_limited_level1 irAgrees_level1 irAgrees_of_behEq onceOk_level1") +
+             t("Hpbf.OptProof", "optimizeOnce_shape' optimizeOnce_shapeOk' dse_total_after_round' optimizeOnce_atMost_atLeast analSound_after_round1' round1_dse_preserves' optimize_preserves_of_steps'") +
              t("Hpbf.OptProof", "optimizeOnce_straightline optimize_straightline_level1 optimizeOnce_preserves_level1 optimizeOnce_onceOk_level1 optimize_preserves_level1' optimize_onceOk_level1' optimize_parse_level1 tape_not_preserved") +
              t("Hpbf.C01Loop", "ev_congr symbEvaluate_varsIn shiftVars_value reduceConst_total reduceConst_value reduceConst_varsIn reduceConst_canon splitAlong_recompose linPart_value tripCount_runs tripCount_diverges tripInv_runs tripCount_iter tripCount_iter_none tripInv_iter analyzeLoop_sound analyzeLoop_noReturn tripFacts_of_meaning constantsAmong_good constantsAmong_sound constantsAmong_sound_iter linearAmong_spec linearAmong_sound loopMotion_cases triFold_spec loopMotion_sound loopMotion_all_sound motionFold_spec finishLoop_motion_sound pendReads_possibleReads pendingSet_spec") +
              t("Hpbf.Chain", "level0_all_backends same_inplace same_ir parse_irOf") +
@@ -164,7 +167,7 @@ PROPS["C01"] = dict(
              dict(suite="levelcap", quick=400, thorough=20000, judge="const"),
              dict(suite="irecho", quick=300, thorough=5000, judge="tie")],
     corpus=["programs"], corpus_judge="program",
-    scope="OPTIMISATION LEVEL 1 IS PROVED (Props/C01Rebuild): for every IR block whose expressions are in normal form (parser output is), every width >= 1, every oracle of hash iteration orders and every environment, the exact optimizer model Opt.optimize b 1 returns a block with the same behaviour — forward, backward and prefix on the event trace (optimize_preserves_level1', optimize_parse_level1) — and every loop it marks `once` is entered with a non-zero condition (optimize_onceOk_level1'), which discharges the hypothesis of the bytecode/JIT chain at -O1. The proof covers the symbolic rebuild state (written/pending/reverse), Tarjan-ordered emission for every iteration order, clobbering, nested blocks with the parent chain, inlining, the wrapping if, loop analysis and loop motion; it FOUND two genuine miscompiles (F11, F12), both repaired. Towards levels 2 and 3 (Props/C01Rounds): the analysis a round records matches its output node by node, so dead store elimination never fails on it and its syntactic hypotheses hold (optimizeOnce_shapeOk', dse_total_after_round'); at_most_once/at_least_once facts hold; round 1 followed by DSE preserves behaviour given the one remaining clause ReadsFact (round1_dse_preserves'); optimize_preserves_of_steps' reduces every level to named per-step obligations. The rounds that USE the previous analysis are in progress. HEADLINE (Props/ChainTotal, level0_all_backends): for every balanced source, width >= 1 and environment the canonical semantics, the in-place interpreter, the IR interpreter, the bytecode machine in both dispatch profiles (p = translate (parse src), total) have the SAME set of results (ending kind + event trace), and the machine code of the JIT returns the canonical result (forward; full converse in limited mode) under explicit range hypotheses. Level 0 is FULL: for every balanced program, environment and width (w >= 1) the IR produced by "
+    scope="HEADLINE AT -O1 (Props/ChainO1, level1_all_backends): for every balanced source, width >= 1, environment and ANY oracle for which the optimizer model succeeds at level 1, canonical semantics, in-place interpreter, IR interpreter on the optimized IR, and the bytecode machine (both dispatch profiles) on translate of the optimized IR have the same set of results, and the JIT's machine code returns the canonical result under JitRange. OPTIMISATION LEVEL 1 IS PROVED (Props/C01Rebuild): for every IR block whose expressions are in normal form (parser output is), every width >= 1, every oracle of hash iteration orders and every environment, the exact optimizer model Opt.optimize b 1 returns a block with the same behaviour — forward, backward and prefix on the event trace (optimize_preserves_level1', optimize_parse_level1) — and every loop it marks `once` is entered with a non-zero condition (optimize_onceOk_level1'), which discharges the hypothesis of the bytecode/JIT chain at -O1. The proof covers the symbolic rebuild state (written/pending/reverse), Tarjan-ordered emission for every iteration order, clobbering, nested blocks with the parent chain, inlining, the wrapping if, loop analysis and loop motion; it FOUND two genuine miscompiles (F11, F12), both repaired. Towards levels 2 and 3 (Props/C01Rounds): the analysis a round records matches its output node by node, so dead store elimination never fails on it and its syntactic hypotheses hold (optimizeOnce_shapeOk', dse_total_after_round'); at_most_once/at_least_once facts hold; round 1 followed by DSE preserves behaviour given the one remaining clause ReadsFact (round1_dse_preserves'); optimize_preserves_of_steps' reduces every level to named per-step obligations. The rounds that USE the previous analysis are in progress. HEADLINE (Props/ChainTotal, level0_all_backends): for every balanced source, width >= 1 and environment the canonical semantics, the in-place interpreter, the IR interpreter, the bytecode machine in both dispatch profiles (p = translate (parse src), total) have the SAME set of results (ending kind + event trace), and the machine code of the JIT returns the canonical result (forward; full converse in limited mode) under explicit range hypotheses. Level 0 is FULL: for every balanced program, environment and width (w >= 1) the IR produced by "
           "Program::parse, run by the IR interpreter model, has exactly the canonical event sequence, terminates iff "
           "the canonical run does, and every intermediate output is a canonical prefix (parse_forward/backward/prefix); "
           "the folding of odd-step loops is justified for every width. Levels >= 1: partial, see not_proved. The "
@@ -396,8 +399,9 @@ def c07_limited(run, harnesses):
 
 
 PROPS["C05"] = dict(
-    modules=["Hpbf.Props.C05", "Hpbf.Props.Chain", "Hpbf.Props.ChainTotal"],
-    theorems=t("Hpbf.Chain", "bc_never_returns_unconditional bc_runs_forever_unconditional bc_limited_interrupted_unconditional bc_divergent_output_unconditional bc_terminates_unconditional jit_level0_divergent_unconditional") +
+    modules=["Hpbf.Props.C05", "Hpbf.Props.Chain", "Hpbf.Props.ChainTotal", "Hpbf.Props.ChainO1"],
+    theorems=t("Hpbf.Chain", "bc_never_returns_level1 bc_runs_forever_level1 bc_limited_interrupted_level1 bc_divergent_output_level1 jit_level1_divergent") +
+             t("Hpbf.Chain", "bc_never_returns_unconditional bc_runs_forever_unconditional bc_limited_interrupted_unconditional bc_divergent_output_unconditional bc_terminates_unconditional jit_level0_divergent_unconditional") +
              t("Hpbf.Chain", "bc_never_returns bc_runs_forever bc_runs_forever_or_bad bc_limited_interrupted bc_terminates bc_divergent_output jit_level0_divergent") +
              t("Hpbf.C05", "normTape_denotes sameCfg_sound step_congr repeat_diverges cert_diverges_sound "
                "cert_diverges_witness cert_halts_sound cert_consistent inplace_never_returns inplace_runs_forever "
@@ -407,7 +411,7 @@ PROPS["C05"] = dict(
     streams=[],
     extra=[c05_divergence],
     corpus=["diverge"], corpus_judge="div",
-    scope="Bytecode machine at level 0 (Props/Chain, from the composed refinement): a canonically divergent program never returns (unlimited and limited), a canonically terminating one terminates, and what a divergent program prints is a canonical prefix (bc_never_returns, bc_terminates, bc_divergent_output). Divergence certificates are sound (a canonical run that revisits a configuration never terminates; "
+    scope="At -O1 TOO (Props/ChainO1): with b' the result of the optimizer model at level 1 for ANY oracle, divergence/termination and the output before divergence are preserved by the IR interpreter and the bytecode machine (bc_*_level1). Bytecode machine at level 0 (Props/Chain, from the composed refinement): a canonically divergent program never returns (unlimited and limited), a canonically terminating one terminates, and what a divergent program prints is a canonical prefix (bc_never_returns, bc_terminates, bc_divergent_output). Divergence certificates are sound (a canonical run that revisits a configuration never terminates; "
           "cert_diverges_sound, cert_halts_sound). For the in-place interpreter (all programs) and the IR "
           "interpreter at level 0 (all programs, w >= 1): canonical divergence implies the back end never returns "
           "(finished/stopped impossible for every fuel and budget), limited mode reports interrupted, everything "
@@ -429,8 +433,9 @@ PROPS["C05"] = dict(
 )
 
 PROPS["C07"] = dict(
-    modules=["Hpbf.Props.C07", "Hpbf.Props.C04", "Hpbf.Props.Chain", "Hpbf.Props.ChainTotal"],
-    theorems=t("Hpbf.Chain", "bc_limited_finished_unconditional bc_limited_is_prefix_unconditional bc_limited_enough_unconditional bc_limited_total_unconditional jit_level0_limited_unconditional jit_level0_limited_enough_unconditional") +
+    modules=["Hpbf.Props.C07", "Hpbf.Props.C04", "Hpbf.Props.Chain", "Hpbf.Props.ChainTotal", "Hpbf.Props.ChainO1"],
+    theorems=t("Hpbf.Chain", "bc_limited_finished_level1 bc_limited_prefix_level1 bc_limited_enough_level1 ir_limited_level1 jit_level1_limited jit_level1_limited_enough") +
+             t("Hpbf.Chain", "bc_limited_finished_unconditional bc_limited_is_prefix_unconditional bc_limited_enough_unconditional bc_limited_total_unconditional jit_level0_limited_unconditional jit_level0_limited_enough_unconditional") +
              t("Hpbf.Chain", "bc_limited_finished bc_limited_prefix bc_limited_is_prefix bc_limited_enough jit_level0_limited jit_level0_limited_enough") +
              t("Hpbf.C07", "ir_limited_done ir_limited_stopped ir_limited_prefix ir_limited_is_prefix ir_limited_enough "
                "ir_limited_enough_stopped ir_limited_terminates ir_divergent_never_finished bc_limited_done "
@@ -442,7 +447,7 @@ PROPS["C07"] = dict(
              dict(suite="bcrun", quick=80, thorough=4000, judge="bcrun")],
     extra=[c07_limited],
     corpus=["programs"], corpus_judge="program",
-    scope="Bytecode machine and JIT at level 0 against the CANONICAL semantics (Props/Chain): a limited run that reports finished has the complete canonical events, any limited run's events are a canonical prefix, enough budget finishes (bc_limited_finished, bc_limited_is_prefix, bc_limited_enough; jit_level0_limited for the machine code). For the in-place interpreter (vs canonical semantics, all programs), the IR machine and the bytecode machine "
+    scope="At -O1 TOO (Props/ChainO1): with b' the result of the optimizer model at level 1 for ANY oracle, limited runs of the IR interpreter, the bytecode machine and the JIT are canonical prefixes / complete when finished. Bytecode machine and JIT at level 0 against the CANONICAL semantics (Props/Chain): a limited run that reports finished has the complete canonical events, any limited run's events are a canonical prefix, enough budget finishes (bc_limited_finished, bc_limited_is_prefix, bc_limited_enough; jit_level0_limited for the machine code). For the in-place interpreter (vs canonical semantics, all programs), the IR machine and the bytecode machine "
           "(limited vs unlimited run of the SAME program, all programs incl. malformed bytecode): a limited run that "
           "reports finished/stopped ends in the same state as the unlimited run; otherwise its events are a prefix; a "
           "budget >= the unlimited step count suffices to finish; limited runs terminate within an explicit fuel bound "
@@ -460,8 +465,9 @@ PROPS["C07"] = dict(
 )
 
 PROPS["C08"] = dict(
-    modules=["Hpbf.Props.C08", "Hpbf.Props.Chain", "Hpbf.Props.ChainTotal"],
-    theorems=t("Hpbf.Chain", "bc_stops_like_canonical_unconditional bc_stops_only_like_canonical_unconditional") +
+    modules=["Hpbf.Props.C08", "Hpbf.Props.Chain", "Hpbf.Props.ChainTotal", "Hpbf.Props.ChainO1"],
+    theorems=t("Hpbf.Chain", "bc_stops_like_canonical_level1 bc_stops_only_like_canonical_level1") +
+             t("Hpbf.Chain", "bc_stops_like_canonical_unconditional bc_stops_only_like_canonical_unconditional") +
              t("Hpbf.Chain", "bc_stops_like_canonical bc_limited_stops_like_canonical bc_stops_only_like_canonical bc_refused_byte") +
              t("Hpbf.C08", "outByte_low8 eof_reads_zero eof_sticky eof_reply_reads_zero input_error_stops "
                "input_absent_stops output_refused_stops output_absent_sink_ok input_fails_iff output_fails_iff "
@@ -473,7 +479,7 @@ PROPS["C08"] = dict(
     streams=[dict(suite="faults", quick=150, thorough=6000, judge="program"),
              dict(suite="e2e", quick=800, thorough=20000, judge="program")],
     corpus=["programs"], corpus_judge="program",
-    scope="Bytecode machine at level 0 against the CANONICAL semantics (Props/Chain): a failing I/O operation stops the bytecode run with exactly the canonical events, in either mode, and it stops only then (bc_stops_like_canonical, bc_stops_only_like_canonical, bc_refused_byte). Environment semantics (end of input reads 0 and is sticky; read error / absent source / refused byte stop "
+    scope="At -O1 TOO (Props/ChainO1): with b' the result of the optimizer model at level 1 for ANY oracle, I/O failures stop the bytecode machine exactly like canonical. Bytecode machine at level 0 against the CANONICAL semantics (Props/Chain): a failing I/O operation stops the bytecode run with exactly the canonical events, in either mode, and it stops only then (bc_stops_like_canonical, bc_stops_only_like_canonical, bc_refused_byte). Environment semantics (end of input reads 0 and is sticky; read error / absent source / refused byte stop "
           "with the tape untouched; absent sink accepts silently) for the shared State operations; for each machine "
           "(canonical, in-place, IR, bytecode) a stop ends the run (no later event) and happens only at a failing I/O "
           "instruction; the events before a refused byte, and the refused byte itself, are exactly those of the "
@@ -602,8 +608,10 @@ PROPS["C10"] = dict(
 )
 
 PROPS["C13"] = dict(
-    modules=["Hpbf.Props.C11", "Hpbf.Props.C12", "Hpbf.Props.C02EmitTotal", "Hpbf.Props.Chain", "Hpbf.Props.C01Dse", "Hpbf.Props.C03Total", "Hpbf.Props.C02AllocTotal", "Hpbf.Props.C01Rounds"],
-    theorems=t("Hpbf.OptProof", "optimizeOnce_shape' optimizeOnce_shapeOk' dse_total_after_round' optimizeOnce_atMost_atLeast analSound_after_round1' round1_dse_preserves' optimize_preserves_of_steps'") +
+    modules=["Hpbf.Props.C11", "Hpbf.Props.C12", "Hpbf.Props.C02EmitTotal", "Hpbf.Props.Chain", "Hpbf.Props.C01Dse", "Hpbf.Props.C03Total", "Hpbf.Props.C02AllocTotal", "Hpbf.Props.C01Rounds", "Hpbf.Props.C13Opt"],
+    theorems=t("Hpbf.OptProof", "optimizeOnce_rdOk' optimizeOnce_analSound'") +
+             t("Hpbf.OptTotal", "oracle_error_not_panic parse_canonL' optimize_canonL' optimizeOnce_safe' optimizeM_safe' optimize_no_panic' optimize_never_panics optimize_no_panic_parse optimize_total' optimize_total_parse compile_pipeline_no_panic") +
+             t("Hpbf.OptProof", "optimizeOnce_shape' optimizeOnce_shapeOk' dse_total_after_round' optimizeOnce_atMost_atLeast analSound_after_round1' round1_dse_preserves' optimize_preserves_of_steps'") +
              t("Hpbf.C02", "allocateTemps_total_of_pre totalPre_of_emit allocateTemps_total_of_emit translateE_total translateE_total_check") + t("Hpbf.C02.Alloc", "drainEnds_total liveMask_total alloc_step_total tinv_step alloc_total_defd_necessary alloc_total_defAt_necessary alloc_total_unread_necessary alloc_total_lastLt_necessary alloc_total_any_numRegs") +
              t("Hpbf.C03", "total_selector_iff selector_total selector_total_converse translate_jitForm compile_total_modulo_fits translate_compile translate_compile_of_localOk") +
              t("Hpbf.C02", "emit_total emitOnly_total emit_total_full_holds emit_total_run emit_total_inv") +
@@ -613,7 +621,7 @@ PROPS["C13"] = dict(
              dict(suite="bcgen", quick=40, thorough=3000, judge="tie"),
              dict(suite="jitgen", quick=10, thorough=600, judge="tie")],
     extra=[c13_cross_process],
-    scope="Proved: the parser model is total and its two defensive arms are unreachable (C12); the EMISSION phase of "
+    scope="THE OPTIMIZER NEVER PANICS (Props/C13Opt): for every block in normal form (parser output is), every level and EVERY oracle, the exact optimizer model returns a result or an oracle-mismatch diagnostic — never one of its panic sites (every unwrap, index, counter decrement incl. the F3 site, enumerated in the Props file) and never a fuel error (optimize_no_panic', optimize_never_panics); a fitting oracle always exists (optimize_total'); compile_pipeline_no_panic chains parse, optimize, translate, contract check and (given operand ranges) machine-code generation. Proved: the parser model is total and its two defensive arms are unreachable (C12); the EMISSION phase of "
           "translate never reaches one of its panic sites, for every IR block, width and fuse mode (emit_total: range "
           "table indices, the outer_accessed loop's fuel, sub-analysis indices — each site discharged), and once emission "
           "succeeds the dead-store and late passes succeed (translateE_ok_of_alloc), and allocate_temps never panics on "
@@ -630,8 +638,8 @@ PROPS["C13"] = dict(
           "unimplemented! at run time, C11 check_no_bad). Tied exactly: bytecode generation and JIT code generation are "
           "pure Lean functions of (IR, registers, fusion) resp. (bytecode, mode) whose output equals the Rust's on every "
           "sampled input — including the forms for which the Rust panics with unimplemented!, which the model predicts.",
-    not_proved="absence of panics in the optimizer's rebuild round and in the JIT beyond instruction selection (operand "
-               "range overflows), independence of hash seeds and of earlier compilations, and reusability are properties of "
+    not_proved="overflow checks of a debug build on offsets near 2^63 and the JIT's operand-range overflows (explicit "
+               "hypotheses), independence of hash seeds and of earlier compilations, and reusability are properties of "
                "the running Rust code: they are observed (catch_unwind in a debug build, double compilation, two processes, "
                "triple execution), not proved; 'no super-polynomial blow-up' is measured on doubling families (thorough tier)",
     rule="c13 stream: generated programs incl. nesting depth 50-400 and divergent ones x 4 widths x levels 0-3: create every "
@@ -643,8 +651,9 @@ PROPS["C13"] = dict(
 )
 
 PROPS["C02"] = dict(
-    modules=["Hpbf.Props.C02", "Hpbf.Props.C02Emit", "Hpbf.Props.C02Dse", "Hpbf.Props.C02Alloc", "Hpbf.Props.C02EmitTotal", "Hpbf.Props.C11", "Hpbf.Props.C07", "Hpbf.Props.Chain", "Hpbf.Props.C02AllocTotal", "Hpbf.Props.ChainTotal"],
-    theorems=t("Hpbf.Chain", "translate_ok translate_check translate_refines_unconditional translate_refines_noOnce_unconditional translate_never_bad_unconditional bytecode_level0_unconditional bytecode_level0_debug_unconditional bytecode_level0_source same_bc same_bc_debug level0_all_backends") +
+    modules=["Hpbf.Props.C02", "Hpbf.Props.C02Emit", "Hpbf.Props.C02Dse", "Hpbf.Props.C02Alloc", "Hpbf.Props.C02EmitTotal", "Hpbf.Props.C11", "Hpbf.Props.C07", "Hpbf.Props.Chain", "Hpbf.Props.C02AllocTotal", "Hpbf.Props.ChainTotal", "Hpbf.Props.ChainO1"],
+    theorems=t("Hpbf.Chain", "bytecode_level1 bytecode_level1_debug bytecode_level1_proper bcAgrees_level1 bcAgrees_of_ir level1_all_backends") +
+             t("Hpbf.Chain", "translate_ok translate_check translate_refines_unconditional translate_refines_noOnce_unconditional translate_never_bad_unconditional bytecode_level0_unconditional bytecode_level0_debug_unconditional bytecode_level0_source same_bc same_bc_debug level0_all_backends") +
              t("Hpbf.C02", "allocateTemps_total_of_pre totalPre_of_emit allocateTemps_total_of_emit translateE_total translateE_total_check") + t("Hpbf.C02.Alloc", "drainEnds_total liveMask_total alloc_step_total tinv_step alloc_total_defd_necessary alloc_total_defAt_necessary alloc_total_unread_necessary alloc_total_lastLt_necessary alloc_total_any_numRegs") +
              t("Hpbf.C02", "emit_total emitOnly_total emit_forward' emit_backward' emit_prefix'") +
              t("Hpbf.Chain", "emit_targetsOk emit_brnz_target emit_brz_target emit_live0 translateE_phases translateE_ok_of_alloc passes_behEqIO translate_behEqIO translate_shape translate_forward translate_backward translate_prefix translate_refines translate_refines_noOnce translate_never_interrupted translate_not_bad_of_terminates parse_noOnce parse_onceOk bytecode_level0_forward bytecode_level0_backward bytecode_level0_prefix bytecode_level0 bytecode_level0_debug bytecode_level0_proper") +
@@ -673,7 +682,7 @@ PROPS["C02"] = dict(
              dict(suite="bcrun", quick=60, thorough=3000, judge="bcrun"),
              dict(suite="e2e", quick=1200, thorough=40000, thorough_seeds=3, judge="program")],
     corpus=["programs"], corpus_judge="program",
-    scope="UNCONDITIONAL (Props/ChainTotal): with p := translate blk n fuse (proved total, never the sentinel: translate_ok) — bytecode_level0_unconditional / _debug_unconditional need only balancedness and w >= 1; translate_refines_unconditional for every IR block under OnceOk; the bytecode of translate never reaches a bad state in any mode, budget or fuel (translate_never_bad_unconditional). END TO END AT LEVEL 0 (Props/Chain): for EVERY source text, width >= 1 and environment, if translate succeeds on the parsed program then the bytecode machine (both dispatch profiles) has exactly the canonical events: canonical terminates/stops => bytecode does with the same trace, conversely, and unfinished runs are prefixes of each other (bytecode_level0, bytecode_level0_debug); for ANY IR block (i.e. also optimizer output) translate refines the IR semantics under OnceOk (translate_refines) — the four phase theorems composed, TargetsOk of emitted code proved (emit_targetsOk), the .ok chain shown to fail only at the panic sites of emission/allocation (translateE_ok_of_alloc). Proved on the exact Lean port of the generator and the bytecode machine: (1) the FIRST phase of translate "
+    scope="At -O1 TOO (Props/ChainO1): with b' the result of the optimizer model at level 1 for ANY oracle, bytecode_level1 / _debug: canonical = bytecode machine on translate b' (forward, backward, prefix), never bad. UNCONDITIONAL (Props/ChainTotal): with p := translate blk n fuse (proved total, never the sentinel: translate_ok) — bytecode_level0_unconditional / _debug_unconditional need only balancedness and w >= 1; translate_refines_unconditional for every IR block under OnceOk; the bytecode of translate never reaches a bad state in any mode, budget or fuel (translate_never_bad_unconditional). END TO END AT LEVEL 0 (Props/Chain): for EVERY source text, width >= 1 and environment, if translate succeeds on the parsed program then the bytecode machine (both dispatch profiles) has exactly the canonical events: canonical terminates/stops => bytecode does with the same trace, conversely, and unfinished runs are prefixes of each other (bytecode_level0, bytecode_level0_debug); for ANY IR block (i.e. also optimizer output) translate refines the IR semantics under OnceOk (translate_refines) — the four phase theorems composed, TargetsOk of emitted code proved (emit_targetsOk), the .ok chain shown to fail only at the panic sites of emission/allocation (translateE_ok_of_alloc). Proved on the exact Lean port of the generator and the bytecode machine: (1) the FIRST phase of translate "
           "(analysis + value-numbering emission of every IR instruction, loops, ifs, fused scans, both fuse modes) "
           "refines the IR semantics for EVERY IR block at every width: emit_forward / emit_backward (same events, tape, "
           "pointer, environment for finished and I/O-stopped runs) and emit_prefix (unfinished runs are prefixes of each "
@@ -715,8 +724,9 @@ PROPS["C02"] = dict(
 
 
 PROPS["C03"] = dict(
-    modules=["Hpbf.Props.C03", "Hpbf.Props.C03Flow", "Hpbf.Props.C03Total", "Hpbf.Props.C11", "Hpbf.Props.C11Full", "Hpbf.Props.Chain", "Hpbf.Props.ChainTotal"],
-    theorems=t("Hpbf.Chain", "jitCode_spec jitHyps_of_range jit_level0_forward_unconditional jit_level0_unique_unconditional jit_level0_prefix_unconditional jit_level0_divergent_unconditional jit_level0_limited_unconditional jit_level0_limited_enough_unconditional jit_forward_fin jit_limited_fin level0_all_backends") +
+    modules=["Hpbf.Props.C03", "Hpbf.Props.C03Flow", "Hpbf.Props.C03Total", "Hpbf.Props.C11", "Hpbf.Props.C11Full", "Hpbf.Props.Chain", "Hpbf.Props.ChainTotal", "Hpbf.Props.ChainO1"],
+    theorems=t("Hpbf.Chain", "jit_level1_forward jit_level1_unique jit_level1_prefix jit_level1_divergent jit_level1_limited jit_level1_limited_enough translate_window_optimized jitRange_window_of_length level1_all_backends") +
+             t("Hpbf.Chain", "jitCode_spec jitHyps_of_range jit_level0_forward_unconditional jit_level0_unique_unconditional jit_level0_prefix_unconditional jit_level0_divergent_unconditional jit_level0_limited_unconditional jit_level0_limited_enough_unconditional jit_forward_fin jit_limited_fin level0_all_backends") +
              t("Hpbf.C03", "total_emitCopy total_emitAdd total_emitSub total_emitMul total_selector_iff selector_total selector_total_converse total_savedRegs total_emit_shape total_alloc_shape total_reorder_jitForm translate_jitForm translate_jitForm_numRegs total_arith_fits total_emitInstr compile_total_modulo_fits total_fits_of_bounds translate_compile translate_compile_of_localOk") + t("Hpbf.C02", "translateE_check") +
              t("Hpbf.Chain", "x86_ret_unique jit_of_bc jit_level0_forward jit_level0_unique jit_level0_prefix jit_level0_divergent jit_level0_limited jit_level0_limited_enough") +
              t("Hpbf.C03", "layout_decompose layout_locs layout_instr_at layout_epilogue_at layout_jcc_target layout_term_target "
@@ -734,7 +744,7 @@ PROPS["C03"] = dict(
              dict(suite="irgen", quick=1500, thorough=80000, judge="tie"),
              dict(suite="e2e", quick=1500, thorough=50000, thorough_seeds=3, judge="program")],
     corpus=["programs", "jitforms"], corpus_judge="program",
-    scope="UNCONDITIONAL UP TO RANGES (Props/ChainTotal): for p := translate (parse src) 11 false the contract check and the success of compileX86 are theorems; jit_level0_*_unconditional take only JitRange (supported width, code < 2^31 bytes, window/shift/temps displacements inside i32, distinct runtime addresses, stack alignment, budget < 2^64, no allocation beyond 2^40 cells). END TO END AT LEVEL 0 (Props/Chain): source text -> parse -> translate -> compileX86 -> program-level x86 machine: under the bundled hypotheses of prog_run (JitHyps), a canonically terminating program makes the machine code return 1 (0 after an I/O stop) with exactly the canonical events, every return is that one (jit_level0_forward, jit_level0_unique), running code only ever has emitted a canonical prefix (jit_level0_prefix), and in limited mode the function always returns, with rax = 1 only for a complete canonical run (jit_level0_limited). WHOLE-PROGRAM simulation, proved on the exact Lean port of the code generator (JitGen.compileX86) and an "
+    scope="At -O1 TOO (Props/ChainO1): with b' the result of the optimizer model at level 1 for ANY oracle, jit_level1_*: as jit_level0_*_unconditional for translate b' 11 false; the window fields of JitRange follow from bytes*length(source) < 2^31 (jitRange_window_of_length). UNCONDITIONAL UP TO RANGES (Props/ChainTotal): for p := translate (parse src) 11 false the contract check and the success of compileX86 are theorems; jit_level0_*_unconditional take only JitRange (supported width, code < 2^31 bytes, window/shift/temps displacements inside i32, distinct runtime addresses, stack alignment, budget < 2^64, no allocation beyond 2^40 cells). END TO END AT LEVEL 0 (Props/Chain): source text -> parse -> translate -> compileX86 -> program-level x86 machine: under the bundled hypotheses of prog_run (JitHyps), a canonically terminating program makes the machine code return 1 (0 after an I/O stop) with exactly the canonical events, every return is that one (jit_level0_forward, jit_level0_unique), running code only ever has emitted a canonical prefix (jit_level0_prefix), and in limited mode the function always returns, with rax = 1 only for a complete canonical run (jit_level0_limited). WHOLE-PROGRAM simulation, proved on the exact Lean port of the code generator (JitGen.compileX86) and an "
           "executable program-level x86 machine (X86Prog: byte-addressed code, flags, push/pop, rel8/rel32 jumps, the three "
           "runtime calls as atomic transitions that clobber every caller-saved register): prog_run — for every bytecode "
           "program that passes the verified contract checker (BcWf.check p 11) and compiles, from the entry state the "
